@@ -37,6 +37,7 @@ ASSUMPTIONS = [
     "cache-free oracles: ref/calendars.py (arithmetic calendars), _calculate_start_of_year_days (table calendars), the wrapped zone and ref/tzrules for zone intervals, fresh DateTimeZoneCache / cleared format-info cache",
     "pre-emption is modelled at source-line granularity inside the cache modules",
 ]
+CASE_SCALE = {"patterns": 40, "stress": 40, "sched_zone": 4, "sched_years": 4, "sched_provider": 4}  # hundreds of cultures / 16 real threads per case
 
 DAY = Z.DAY
 PERIOD = 32 * DAY
